@@ -3,6 +3,7 @@ package tv
 import (
 	"context"
 	"fmt"
+	"sort"
 	"strings"
 
 	"github.com/specterops/dawgs/cypher/models/cypher"
@@ -197,7 +198,7 @@ func RunC02(run *core.Run, backend *SQLBackend, queries []Query, b Bounds) {
 						continue
 					}
 					run.Add("disagreements_checked", 1)
-					for _, class := range classifyC02(m, q, g, ref, ob.Rows, ov.Rows, v.name) {
+					for _, class := range classifyC02(m, q, g, ref, ob.Rows, ov.Rows, v.name, appliedLowerings(v.res, &plan)) {
 						run.Report(core.Violation{
 							Class:    class,
 							Summary:  fmt.Sprintf("%s: configuration %s vs unoptimised on a graph with %d nodes / %d edges: %s", q.Text, v.name, len(g.Nodes), len(g.Edges), why),
@@ -251,7 +252,16 @@ func RunC02(run *core.Run, backend *SQLBackend, queries []Query, b Bounds) {
 // results are explained by the reference evaluator with known translation deviations (the known findings of C01)
 // switched on, the optimisation changes the result only because it removes or introduces one of those known defects:
 // the class names the deviations that differ. Anything else is an unexplained change of the result.
-func classifyC02(m *cypher.RegularQuery, q Query, g *gm.Graph, ref *cyref.Result, base, cfg *gm.Rows, config string) []string {
+func classifyC02(m *cypher.RegularQuery, q Query, g *gm.Graph, ref *cyref.Result, base, cfg *gm.Rows, config string, applied string) []string {
+	baselineWrong := ref != nil && CompareToReference(ref, cfg) == "" && CompareToReference(ref, base) != ""
+	if strings.Contains(applied, "ExpandIntoDetection") && (baselineWrong || sameDistinctRows(base, cfg) && subBag(cfg, base)) {
+		// One recorded defect of the baseline: a step between two bound nodes is translated, without the ExpandInto
+		// lowering, with an unconstrained join of the node table (rows are multiplied, pattern predicates are not
+		// correlated to the current row). Recognised by the lowering having been applied and the optimised rows being
+		// the reference's, or the same rows with smaller multiplicities (never larger: an optimisation that multiplies
+		// rows is not this defect).
+		return []string{"unoptimised-baseline-wrong:step-between-bound-nodes-without-ExpandInto"}
+	}
 	cb, okb := Explain(m, q, g, base, 0)
 	cc, okc := Explain(m, q, g, cfg, 0)
 	if okb && okc {
@@ -278,36 +288,71 @@ func classifyC02(m *cypher.RegularQuery, q Query, g *gm.Graph, ref *cyref.Result
 			return out
 		}
 	}
-	// The production (optimised) rows are what openCypher prescribes and the unoptimised baseline is not: the difference
-	// is a defect of the translation without lowerings. Two such defects are recorded, each recognised by the shape of
-	// the query; any other one is reported under its own class.
-	if ref != nil && CompareToReference(ref, cfg) == "" && CompareToReference(ref, base) != "" {
-		hasPatternPredicate, zeroLengthBeforeStep := false, false
-		cyref.WalkModel(m, func(x cypher.Expression) {
-			switch t := x.(type) {
-			case *cypher.PatternPredicate:
-				hasPatternPredicate = true
-			case *cypher.PatternPart:
-				seenZero := false
-				for _, el := range t.PatternElements {
-					if rp, ok := el.AsRelationshipPattern(); ok {
-						if seenZero {
-							zeroLengthBeforeStep = true
-						}
-						if rp.Range != nil && rp.Range.StartIndex != nil && *rp.Range.StartIndex == 0 {
-							seenZero = true
-						}
-					}
-				}
-			}
-		})
-		switch {
-		case hasPatternPredicate:
-			return []string{"unoptimised-baseline-wrong:pattern-predicate-between-bound-nodes-is-not-correlated"}
-		case zeroLengthBeforeStep:
-			return []string{"unoptimised-baseline-wrong:zero-length-expansion-followed-by-step"}
-		}
-		return []string{featureClass("unoptimised-baseline-wrong", q)}
+	// The production (optimised) rows are what openCypher prescribes and the rows of the translation without any
+	// optimisation are not: the optimisation changes the result, to the right one. The class names the rewrite rules and
+	// lowerings that were applied (what the baseline lacks). A defect of an optimisation cannot end up here: it makes the
+	// optimised rows differ from the reference.
+	if baselineWrong {
+		return []string{"unoptimised-baseline-wrong:corrected-by:" + applied}
 	}
 	return []string{featureClass("configuration-changes-result:"+config, q)}
+}
+
+// appliedLowerings names the rewrite rules and lowerings that took part in a translation, sorted.
+func appliedLowerings(res translate.Result, plan *optimize.Plan) string {
+	set := map[string]bool{}
+	for _, l := range res.Optimization.Lowerings {
+		set[l.Name] = true
+	}
+	for _, r := range plan.Rules {
+		if r.Applied {
+			set[r.Name] = true
+		}
+	}
+	var names []string
+	for n := range set {
+		names = append(names, n)
+	}
+	sort.Strings(names)
+	if len(names) == 0 {
+		return "nothing-recorded"
+	}
+	return strings.Join(names, "+")
+}
+
+// sameDistinctRows reports whether two results hold the same rows when multiplicities are ignored.
+func sameDistinctRows(a, b *gm.Rows) bool {
+	set := func(r *gm.Rows) map[string]bool {
+		m := map[string]bool{}
+		for _, row := range r.Rows {
+			m[gm.CanonRow(row)] = true
+		}
+		return m
+	}
+	sa, sb := set(a), set(b)
+	if len(sa) != len(sb) {
+		return false
+	}
+	for k := range sa {
+		if !sb[k] {
+			return false
+		}
+	}
+	return true
+}
+
+// subBag reports whether every row of a occurs in b at least as often.
+func subBag(a, b *gm.Rows) bool {
+	count := map[string]int{}
+	for _, row := range b.Rows {
+		count[gm.CanonRow(row)]++
+	}
+	for _, row := range a.Rows {
+		k := gm.CanonRow(row)
+		if count[k] == 0 {
+			return false
+		}
+		count[k]--
+	}
+	return true
 }
